@@ -28,6 +28,7 @@ pub fn def() -> CheckDef {
         cpu_limit_s: 20,
         fault_kinds: "none (fault-free disk; reopen at drawn points)",
         count_subruns: false,
+        expect_probes: &[],
     }
 }
 
